@@ -7,10 +7,11 @@
 -/
 import PolyVerif.Props.C08Mesh
 import PolyVerif.Lemmas.PlyFacesTex
+import PolyVerif.Lemmas.PlyUnweld
 
 namespace PolyVerif
 namespace C08
-open Ply PlySpec PlyLemmas PlyCompose PlyHeader PlyFaces PlyFacesTex
+open Ply PlySpec PlyLemmas PlyCompose PlyHeader PlyFaces PlyFacesTex PlyUnweld
 
 variable {α : Type}
 
@@ -60,6 +61,24 @@ theorem ply_reads_spec_mesh_tex_bytes (c : Coding α) (f : SpecFile α) (fe : Sp
     simp only [Option.isNone_some, Bool.false_eq_true, if_false, assemble, bind, Except.bind, pure, Except.pure, hcond,
       List.isEmpty_cons]
     rw [if_pos ⟨hpos, trivial⟩]
+
+/-- TEXTURED MESH FILES LOAD WITHOUT ERROR: when every face lists existing vertices (numbers < the vertex count) the
+unweld step cannot fail, and the result is explicit — `corners`: indices 0..k-1, every attribute gathered through the fan
+indices (one vertex per fan corner), plus `TexCoord` -/
+theorem ply_reads_spec_mesh_tex_loads (c : Coding α) (f : SpecFile α) (fe : SpecFaceElem α) (tct tit : SType)
+    (hok : SpecHeaderOK f) (hf : f.format ≠ .ascii) (hm : SpecMeshTexOK f fe tct tit)
+    (hsize : ∀ fc ∈ fe.faces, TriOrQuad fc) (hvr : ∀ fc ∈ fe.faces, ∀ v ∈ fc.verts, v < f.verts.length)
+    (htyped : ∀ r ∈ f.verts, r.map Datum.ty = f.vprops.map (·.ty))
+    (bl : List (Built × List Nat))
+    (hbuilt : bl.map (·.1) = buildAll true (specProps f) defaultReaders true)
+    (hloc : ∀ p ∈ bl, Located (f.vprops.map (·.ty)) p.1 p.2) :
+    readMesh c defaultReader (refEncode c f)
+      = .ok (let mesh := applyColumns ⟨.triangle, fanIdx fe.faces, [], none⟩ (bl.map (·.1)) (f.verts.map (rowOf c bl))
+             if fe.faces.isEmpty then mesh else (corners mesh).set 2 texCoordAttr (texUV c tit fe.faces)) := by
+  have hu := unweld_assembled (bl.map (·.1)) (f.verts.map (rowOf c bl)) fe.faces (by simpa using hvr)
+  rw [ply_reads_spec_mesh_tex_bytes c f fe tct tit hok hf hm hsize htyped bl hbuilt hloc]
+  simp only [hu]
+  cases fe.faces.isEmpty <;> rfl
 
 /-- the specification side, textured: `meaning` performs the same per-corner expansion — whenever it is defined for a
 file with at least one face, its indices are 0..k-1 for the k fan corners -/
